@@ -20,11 +20,11 @@
 namespace cfg {
 using namespace vf;
 
-enum Kind { G_ADD = 1, G_REMOVE, G_DISPATCH, G_ENQ, G_PROCESS, G_PROCESSONE, G_PROCESSIF, G_TAKE, G_PEEK, G_EMPTYQ, G_WAITFOR0, G_COPYQ, G_MOVEQ, G_CLEAR, G_HASANY, G_MAX };
+enum Kind { G_ADD = 1, G_REMOVE, G_DISPATCH, G_ENQ, G_PROCESS, G_PROCESSONE, G_PROCESSIF, G_TAKE, G_PEEK, G_EMPTYQ, G_WAITFOR0, G_COPYQ, G_MOVEQ, G_CLEAR, G_HASANY, G_PROCESSUNTIL, G_MAX };
 inline const char * kindName(int k)
 {
 	static const char * n[] = { "?", "addListener", "removeListener", "dispatch", "enqueue", "process", "processOne", "processIf", "takeEvent", "peekEvent", "emptyQueue",
-		"waitFor0", "copyQueue", "moveQueue", "clearEvents", "hasAnyListener" };
+		"waitFor0", "copyQueue", "moveQueue", "clearEvents", "hasAnyListener", "processUntil" };
 	return (k > 0 && k < G_MAX) ? n[k] : "?";
 }
 
@@ -205,6 +205,7 @@ struct Subject : ISubject
 			case G_PROCESS: emit(std::string("P=") + (q.process() ? "1" : "0")); break;
 			case G_PROCESSONE: emit(std::string("P1=") + (q.processOne() ? "1" : "0")); break;
 			case G_PROCESSIF: { PredParity pr; pr.bit = op.a & 1; emit(std::string("PI=") + (q.processIf(pr) ? "1" : "0")); break; }
+			case G_PROCESSUNTIL: { PredParity pr; pr.bit = op.a & 1; emit(std::string("PU=") + (q.processUntil(pr) ? "1" : "0")); break; }
 			case G_TAKE: {
 				typename Queue::QueuedEvent qe;
 				bool r = q.takeEvent(&qe);
@@ -339,6 +340,20 @@ std::string model(const Program & p, bool include, bool canWait)
 			}
 			m.pending = rest;
 			emit(std::string("PI=") + (n ? "1" : "0"));
+			break;
+		}
+		case G_PROCESSUNTIL: {
+			// dispatches from the front until the predicate holds for an event; that event and everything behind it stay queued
+			std::vector<MEvent> batch; batch.swap(m.pending);
+			size_t i = 0; int n = 0;
+			for(; i < batch.size(); ++i) {
+				if((batch[i].value & 1) == (op.a & 1)) break;
+				run.listeners(batch[i].key, batch[i].value, include, KeyOf<K>::make(batch[i].key)); ++n;
+			}
+			std::vector<MEvent> rest(batch.begin() + (long)i, batch.end());
+			rest.insert(rest.end(), m.pending.begin(), m.pending.end());
+			m.pending = rest;
+			emit(std::string("PU=") + (n ? "1" : "0"));
 			break;
 		}
 		case G_TAKE: {
@@ -480,6 +495,7 @@ Grammar makeGrammar()
 		{ cfg::G_PROCESS, "process", 4, ArgSpec(0, 0), ArgSpec(0, 0), ArgSpec(0, 0), -1, 0 },
 		{ cfg::G_PROCESSONE, "processOne", 4, ArgSpec(0, 0), ArgSpec(0, 0), ArgSpec(0, 0), -1, 0 },
 		{ cfg::G_PROCESSIF, "processIf", 4, ArgSpec(0, 1), ArgSpec(0, 0), ArgSpec(0, 0), -1, 0 },
+		{ cfg::G_PROCESSUNTIL, "processUntil", 4, ArgSpec(0, 1), ArgSpec(0, 0), ArgSpec(0, 0), -1, 0 },
 		{ cfg::G_TAKE, "takeEvent", 3, ArgSpec(0, 0), ArgSpec(0, 0), ArgSpec(0, 0), -1, 0 },
 		{ cfg::G_PEEK, "peekEvent", 2, ArgSpec(0, 0), ArgSpec(0, 0), ArgSpec(0, 0), -1, 0 },
 		{ cfg::G_EMPTYQ, "emptyQueue", 3, ArgSpec(0, 0), ArgSpec(0, 0), ArgSpec(0, 0), -1, 0 },
